@@ -16,6 +16,18 @@ kioenv.activate()
 CANON_VAR = {"expl": 0, "unk": []}
 
 
+def limit_memory(gib: float = 3.0) -> None:
+    """Workers that run kio on hostile input get an address-space limit, so that an allocation
+    proportional to a corrupted length surfaces as MemoryError (an outcome the specification
+    judges) instead of taking the machine down."""
+    import resource
+    lim = int(gib * 2**30)
+    try:
+        resource.setrlimit(resource.RLIMIT_AS, (lim, lim))
+    except (ValueError, OSError):
+        pass
+
+
 def outcome_name(exc: BaseException | None) -> str:
     if exc is None:
         return "ok"
@@ -140,6 +152,7 @@ def write_shard(path: str, schemas: dict, cases: list) -> None:
 
 def gen_wr_shard(args) -> dict:
     """Worker: classes[lo:hi] x per_class sampled instances -> one shard file."""
+    limit_memory()
     shard_path, class_slice, per_class, seed = args
     classes = project.all_entity_classes()
     classes.sort(key=project.sid_of)
@@ -205,6 +218,7 @@ def gen_rw_inputs(args) -> dict:
 
 def gen_rw_shard(args) -> dict:
     """Worker: feed the specification's bytes to kio, record, write the pass-2 shard."""
+    limit_memory()
     in_path, encoded, out_path, seed = args
     project.all_entity_classes()
     with open(in_path) as f:
@@ -272,6 +286,7 @@ def read_boundaries(cls, data: bytes) -> list[tuple[int, int]]:
 
 
 def gen_trunc_shard(args) -> dict:
+    limit_memory()
     in_path, encoded, out_path, seed, all_below = args
     project.all_entity_classes()
     with open(in_path) as f:
@@ -353,6 +368,7 @@ def mutations(raw: bytes, reads: list[tuple[int, int]], rng: random.Random, coun
 
 
 def gen_mut_shard(args) -> dict:
+    limit_memory()
     in_path, encoded, out_path, seed, per_case, check_every = args
     project.all_entity_classes()
     with open(in_path) as f:
